@@ -18,6 +18,8 @@ CONSTANTS
   WrongKinds = {}
   MsgBudget = 4
   InitSerial = 0
+  Senders = {0, 1, 2}
+  PoolKinds = {"live", "dead", "never"}
   ScriptSel = "svc"
   V0 = 20
   V1 = 20
